@@ -28,12 +28,15 @@ enum Prim {
     /// sphere built the way a revolve builds it: sqrt(sqrt(x^2+z^2)^2 + y^2) - r,
     /// whose gradient is 0/0 at the poles
     RevolvedSphere,
+    /// 1 - sum r^2/|p-c|^2: interval evaluation of cells containing a centre is
+    /// NaN (division by an interval containing zero)
+    Metaballs,
 }
 
 const PRIMS: [Prim; 6] = [Prim::Sphere(0.3), Prim::Sphere(0.6), Prim::Sphere(0.85), Prim::BoxP, Prim::Cylinder, Prim::Torus];
 /// primitives only used alone (centred off the lattice, on the lattice centre
 /// and on another dyadic lattice line)
-const EXTRA_PRIMS: [Prim; 2] = [Prim::Cone, Prim::RevolvedSphere];
+const EXTRA_PRIMS: [Prim; 3] = [Prim::Cone, Prim::RevolvedSphere, Prim::Metaballs];
 
 fn prim(b: &mut PB, p: Prim, c: [f32; 3]) -> usize {
     match p {
@@ -65,6 +68,26 @@ fn prim(b: &mut PB, p: Prim, c: [f32; 3]) -> usize {
             let nz = b.neg(zz);
             let base = b.subc(nz, -(c[2] - 0.3));
             b.max(side, base)
+        }
+        Prim::Metaballs => {
+            let mut ball = |b: &mut PB, o: [f32; 3], r2: f32| {
+                let (x, y, z) = (b.x(), b.y(), b.z());
+                let dx = b.subc(x, c[0] + o[0]);
+                let dy = b.subc(y, c[1] + o[1]);
+                let dz = b.subc(z, c[2] + o[2]);
+                let a = b.un(U::Square, dx);
+                let e = b.un(U::Square, dy);
+                let f = b.un(U::Square, dz);
+                let d = b.add(a, e);
+                let d = b.add(d, f);
+                let k = b.c(r2);
+                b.bin(fidget_core::context::BinaryOpcode::Div, k, d)
+            };
+            let m1 = ball(b, [-0.3, 0.0, 0.1], 0.09);
+            let m2 = ball(b, [0.3, 0.2, -0.2], 0.0625);
+            let sum = b.add(m1, m2);
+            let one = b.c(1.0);
+            b.sub(one, sum)
         }
         Prim::RevolvedSphere => {
             let (x, y, z) = (b.x(), b.y(), b.z());
